@@ -27,6 +27,12 @@ DIRECTED = [
     "open d2 b", "readat 0 0 10", "link d2 b d1 c", "list d1", "list d2", "delete d2 b", "list d2", "list d1", "create d2 b", "list d2",
     "newfs", "mkdir d1", "mkdir d2", "list d1", "list d2", "create d1 x", "list d1", "list d2", "link d1 x d2 x", "list d2", "link d1 x d2 x", "delete d1 x", "list d1", "list d2",
     "atomic d2 y 01", "list d2", "list d1",
+    # directory names that are prefixes of each other
+    "newfs", "mkdir d", "mkdir d1", "mkdir d12", "create d1 a", "create d12 b", "list d", "list d1", "list d12", "atomic d x 01", "list d", "list d1", "list d12",
+    "link d x d1 x", "list d", "list d1", "delete d x", "list d", "list d1",
+    # a name that is replaced atomically while it is linked and open elsewhere: the link and the open descriptor keep the old version
+    "newfs", "mkdir d1", "atomic d1 a 11", "link d1 a d1 l", "open d1 a", "atomic d1 a 2222", "readat 0 0 10", "open d1 l", "readat 1 0 10", "open d1 a", "readat 2 0 10",
+    "list d1", "atomic d1 a -", "readat 2 0 10", "readat 0 0 10", "open d1 a", "readat 3 0 10", "open d1 l", "readat 4 0 10",
 ]
 
 
